@@ -411,18 +411,103 @@ func (g *gen) op() *Op {
 	return nil
 }
 
-func genCase(r *vh.Rng, wild bool) Case {
+// boundary classes of a SOURCE kind for set(typedArray): what the source elements hold decides what the
+// per-element conversion to the target kind has to do (negative -> clamped 0, 128..255 -> signed negative, ...)
+var intBoundary = []float64{-1, 0, 1, 127, 128, -128, -129, 255, 256, -2, 5, 32767, 32768, -32768, 65535, 65536,
+	2147483647, 2147483648, -2147483648, 4294967295, 4294967296, 200, -100}
+var floatBoundary = []float64{math.NaN(), math.Inf(1), math.Inf(-1), math.Copysign(0, -1), 0.5, 1.5, 2.5, -0.5, -1.5, 254.5, 255.5,
+	127.5, 128, -129, 300, -1, 2147483648, 4294967297, 9223372036854777856, -9223372036854777856, 1e21, 3.4028235677973366e38,
+	1e-46, 65535.5, -128, 255}
+var bigBoundary = []string{"0", "-1", "1", "127", "128", "-128", "255", "256", "9223372036854775807", "-9223372036854775808",
+	"9223372036854775808", "18446744073709551615", "18446744073709551616", "-9223372036854775809", "-255"}
+
+func (g *gen) srcBoundary(sk, dk int) VArg {
+	r := g.r
+	if isBig(sk) {
+		return VArg{Big: true, Z: bigBoundary[r.Intn(len(bigBoundary))]}
+	}
+	var f float64
+	if sk == 7 || sk == 8 {
+		for {
+			f = floatBoundary[r.Intn(len(floatBoundary))]
+			if !(math.IsNaN(f) && sk == 7 && dk == 8) { // Float32 NaN -> Float64: payload implementation-defined
+				break
+			}
+		}
+	} else {
+		f = intBoundary[r.Intn(len(intBoundary))]
+	}
+	if math.IsNaN(f) {
+		f = math.Float64frombits(0x7ff8000000000000)
+	}
+	return VArg{Z: bitsOf(f)}
+}
+
+// pairScenario: views of the two kinds of the ordered pair, source filled with boundary values, then set(typedArray)
+func (g *gen) pairScenario(pair int) []Op {
+	r := g.r
+	sk, dk := pair/11, pair%11
+	ssz, dsz := esize[sk], esize[dk]
+	sb, db := 0, 1
+	if r.Chance(45) || len(g.e.bufs) < 2 {
+		db = 0
+	}
+	ssize, dsize := len(g.e.bufs[sb].mem), len(g.e.bufs[db].mem)
+	n := 1 + r.Intn(5)
+	if n > ssize/ssz {
+		n = ssize / ssz
+	}
+	dlen := n + r.Intn(3)
+	if dlen > dsize/dsz {
+		dlen = dsize / dsz
+	}
+	if n > dlen {
+		n = dlen
+	}
+	os, od := 0, 0
+	if r.Chance(65) {
+		os = ssz * r.Intn((ssize-n*ssz)/ssz+1)
+	}
+	if r.Chance(65) {
+		od = dsz * r.Intn((dsize-dlen*dsz)/dsz+1)
+	}
+	ops := []Op{
+		{O: "ctor", K: sk, B: sb, A1: plain(os), A2: plain(n)},
+		{O: "ctor", K: dk, B: db, A1: plain(od), A2: plain(dlen)},
+	}
+	fill := Op{O: "setarr", V: 0, K: sk, A1: plain(0)}
+	for i := 0; i < n; i++ {
+		fill.Src = append(fill.Src, g.srcBoundary(sk, dk))
+	}
+	ops = append(ops, fill, Op{O: "settyped", V: 1, S: 0, A1: plain(r.Intn(dlen - n + 1))})
+	return ops
+}
+
+func genCase(r *vh.Rng, wild bool, pair int) Case {
 	nb := 1 + r.Intn(3)
 	var c Case
 	c.Wild = wild
 	var init [][]byte
 	for i := 0; i < nb; i++ {
 		bi := BufInit{N: bufSizes[r.Intn(len(bufSizes))], Seed: r.Intn(2147483647)}
+		if pair >= 0 && i < 2 {
+			bi.N = []int{48, 56, 64}[r.Intn(3)]
+		}
 		init = append(init, lcgBytes(bi.N, bi.Seed))
 		c.Bufs = append(c.Bufs, bi)
 	}
 	g := &gen{r: r, e: newEnv(init), wild: wild}
 	nops := 6 + r.Intn(20)
+	if pair >= 0 {
+		for _, o := range g.pairScenario(pair) {
+			o := o
+			if !g.e.valid(&o) {
+				continue
+			}
+			g.e.runOp(&o)
+			c.Ops = append(c.Ops, o)
+		}
+	}
 	for tries := 0; len(c.Ops) < nops && tries < 200; tries++ {
 		o := g.op()
 		if o == nil || !g.e.valid(o) {
